@@ -6,6 +6,7 @@ mod strings;
 mod suite_cmp;
 mod suite_axes;
 mod suite_entity;
+mod suite_ffixed;
 mod suite_forest;
 mod suite_rt;
 mod idmap_hist;
@@ -17,7 +18,6 @@ mod ser_ws;
 mod suite_ser;
 mod suite_fws;
 mod scope_oracle;
-mod suite_entity;
 mod suite_scope;
 mod suite_tree;
 mod tree;
@@ -48,6 +48,7 @@ fn main() {
         "ser" => suite_ser::run(seed, count, tier, &mut sink),
         "fws" => suite_fws::run(seed, count, tier, &mut sink),
         "scope" => suite_scope::run(seed, count, tier, &mut sink),
+        "ffixed" => suite_ffixed::run(seed, count, tier, &mut sink),
         _ => {
             eprintln!("unknown suite {}", suite);
             std::process::exit(2);
